@@ -758,10 +758,10 @@ func c42Scenarios() []c42Params {
 		return []c42Params{mk(n, w, f, tk, false)}
 	}
 	if !r.Thorough() {
-		return []c42Params{mk(3, 2, 1, 1, false), mk(3, 3, 1, 1, false)} // ~70k + ~245k transitions
+		return []c42Params{mk(3, 2, 1, 1, false), mk(3, 3, 1, 0, false)} // 70,466 + 121,138 transitions
 	}
-	// ascending cost (~0.5M, ~1M, ...)
-	return []c42Params{mk(3, 2, 2, 0, false), mk(3, 2, 1, 3, false), mk(3, 3, 1, 2, false), mk(3, 2, 2, 1, false)}
+	// ascending cost (245k, 486k, 1.05M transitions, then larger)
+	return []c42Params{mk(3, 3, 1, 1, false), mk(3, 2, 2, 0, false), mk(3, 2, 1, 3, false), mk(3, 3, 1, 2, false), mk(3, 2, 2, 1, false)}
 }
 
 // c42Deadline gives scenario i of n an equal share of the wall budget that is left.
